@@ -393,14 +393,16 @@ class Receiver:
             if cuts:
                 cuts = [c + len(banner) for c in cuts]
         self.sock.load(data, frag=frag, cuts=cuts)
-        self.sock.hiccup = hiccup
         pk = self.t.packetizer
         if banner:
+            # no hiccups here: the identification line is read by _read_timeout, which is not the packet layer
+            self.sock.hiccup = None
             try:
                 self.banner_line = pk.readline(30)
             except Exception as e:
-                self.outcome = ("exc", e)
+                self.outcome = ("banner", e)
                 return self.outcome
+        self.sock.hiccup = hiccup
         aead_track = True
         while True:
             if limit is not None and len(self.delivered) >= limit:
